@@ -21,7 +21,7 @@ def emit(kind, field, n, j=0, name=None):
     return path
 
 
-def solve(path, extra='', timeout=600, solver=Z3_OLD, want_model=False, mem_mb=12000):
+def solve(path, extra='', timeout=600, solver=Z3_OLD, want_model=False, mem_mb=24000):
     """-> (verdict in {'sat','unsat','unknown','timeout','error'}, seconds, model dict or None)"""
     txt = open(path).read()
     q = txt + extra + '(check-sat)\n' + ('(get-model)\n' if want_model else '')
